@@ -104,7 +104,8 @@ def run_kani_unit(unit, scratch, tier, seed, repo, pid=None):
     for h in hs:
         cmd += ["--harness", h["name"]]
     cmd += ["-j", str(min(int(os.environ.get("VERIF_KANI_JOBS", "6")), len(hs))), "--output-format", "terse"]
-    env = dict(os.environ, CARGO_NET_OFFLINE="true", CARGO_TARGET_DIR=os.path.join(scratch, "target"))
+    env = dict(os.environ, CARGO_NET_OFFLINE="true", CARGO_TARGET_DIR=os.path.join(scratch, "target"),
+               VERIF_KANI_DIR=os.path.join(ROOT, "kani"))
     ur.cmd = "cargo kani -p %s -Z function-contracts -Z stubbing %s --harness <%d harnesses of kani/%s>" % (
         cfg["package"], " ".join(cfg.get("kani_args", [])), len(hs), unit)
     try:
@@ -144,6 +145,8 @@ def run_kani_unit(unit, scratch, tier, seed, repo, pid=None):
             sat, tot = r["covers"]
             for k in range(tot):
                 ur.obligations.append(f"{label}/cover#{k + 1}")
+            if r["status"] != "SUCCESSFUL" or fails:
+                ur.undecided.append(f"vacuity guard {label} itself failed a check: {fails[:1]}")
             if sat < h.get("covers", 1) or sat != tot:
                 ur.undecided.append(f"vacuity guard {label}: {sat}/{tot} covers satisfied (expected {h.get('covers')})")
             continue
